@@ -139,7 +139,72 @@ func shiftBands(v, ord, B *big.Int) map[string]*big.Int {
 	return out
 }
 
+// c01Nonrev: the same range and authenticity conditions on proofs that carry a non-revocation part (another branch of the
+// verifier). A credential with a witness on a key whose QR-order is below the e-response bound; every response shifted by
+// multiples of the order into the bands around its bound, and an altered disclosed value, must be refused.
+func c01Nonrev(r *mon.Run) {
+	key := world.Fixture("toy384a")
+	pk := key.PK
+	rng := r.Rand("nonrev")
+	for rep := 0; rep < r.Pick(2, 8); rep++ {
+		rev, err := world.NewRev(key)
+		if err != nil {
+			r.Inconclusive("no revocation authority for the non-revocation variant: " + err.Error())
+			return
+		}
+		cred, err := key.SignCredRev([]*big.Int{randBig(rng, 250), bi(int64(1000 + rep)), randBig(rng, 200)}, rev)
+		if err != nil {
+			continue
+		}
+		ctx, non := freshNonces(rng)
+		x := &c01ctx{r: r, key: key, cred: cred, ctx: ctx, non: non}
+		honest, err := cred.C.CreateDisclosureProof([]int{1}, nil, true, ctx, non)
+		if err != nil {
+			continue
+		}
+		desc := fmt.Sprintf("non-revocation credential #%d D=[1]", rep)
+		if !x.try("A-honest", desc, honest) {
+			if countSmall(honest) < 2 {
+				r.Violation("C01/honest-nonrev-proof-rejected", "honest proof with a non-revocation part rejected ("+desc+")", map[string]any{"cred": dumpCred(cred)})
+			}
+			continue
+		}
+		x.base = honest
+		BA := sub(pow2(pk.Params.LmCommit+1), bigOne)
+		BE := sub(pow2(pk.Params.LeCommit+1), bigOne)
+		for _, i := range sortedKeys(honest.AResponses) {
+			if i == cred.RevIdx {
+				continue // tied to the non-revocation part as well
+			}
+			for band, nv := range shiftBands(honest.AResponses[i], key.Ord, BA) {
+				d := cloneD(honest)
+				d.AResponses[i] = nv
+				if countSmall(d) >= 2 {
+					continue // two candidates for the revocation attribute: the verdict depends on map order (known finding of C11)
+				}
+				x.try("D-shift-nonrev", fmt.Sprintf("%s a_responses[%d] band %s", desc, i, band), d)
+			}
+		}
+		for band, nv := range shiftBands(honest.EResponse, key.Ord, BE) {
+			d := cloneD(honest)
+			d.EResponse = nv
+			x.try("D-shift-nonrev", fmt.Sprintf("%s e_response band %s", desc, band), d)
+		}
+		for _, dl := range []int64{1, -1, 5} {
+			d := cloneD(honest)
+			d.ADisclosed[1] = add(d.ADisclosed[1], bi(dl))
+			x.try("B-alter-nonrev", fmt.Sprintf("%s a_disclosed[1]%+d", desc, dl), d)
+		}
+		// split with the reference prover is covered by C11's transplant family; here: index in both maps
+		d := cloneD(honest)
+		d.AResponses[1] = mul(d.C, d.ADisclosed[1])
+		x.try("B-alter-nonrev", desc+" dup index 1 into a_responses", d)
+	}
+	r.FloorFam("D-shift-nonrev", 8)
+}
+
 func runC01(r *mon.Run) {
+	c01Nonrev(r)
 	r.Assume("value-comparing families use keys with Ln>=384 so that x and x+ord(QR_n) are not two in-range representations of one exponent")
 	r.Assume("attribute equality is taken after the scheme's own hashing rule (values longer than Lm bits are signed as their SHA-256 digest)")
 	keys := []string{"toy512a", "toy384a", "fix1024a"} // toy384a: ord(QR_n) < 2^l_e-commit, so that e-responses shifted by multiples of the order reach the bands around the bound
